@@ -6,11 +6,14 @@ export GOFLAGS=-mod=mod GOPROXY=off GOEXPERIMENT=synctest
 unset GOSUMDB
 mkdir -p .build
 cp /repo/go.sum harness/go.sum
-echo '{"Replace": {"/repo/verif_export_verif.go": "/verif/harness/overlay/verif_export.go"}}' > .build/overlay.json
-(cd harness && go build -o ../.build/extract ./cmd/extract && go build -o ../.build/instrument ./cmd/instrument && go build -tags verif -overlay ../.build/overlay.json -o ../.build/vh ./cmd/vh)
+(cd harness && go build -o ../.build/extract ./cmd/extract && go build -o ../.build/instrument ./cmd/instrument)
+bdir=$(cd harness && go list -m -f '{{.Dir}}' go.etcd.io/bbolt)
+./.build/instrument -bbolt "$bdir" .build/bbolt_tx.go
+echo '{"Replace": {"/repo/verif_export_verif.go": "/verif/harness/overlay/verif_export.go", "'$bdir'/tx.go": "/verif/.build/bbolt_tx.go"}}' > .build/overlay.json
+(cd harness && go build -tags verif -overlay ../.build/overlay.json -o ../.build/vh ./cmd/vh)
 # instrumented build (controlled schedules): the three files with the hub's synchronisation are rewritten into an overlay
 rm -rf .build/instr && ./.build/instrument /repo .build/instr bolt.go local.go localsubscriber.go
-echo '{"Replace": {"/repo/verif_export_verif.go": "/verif/harness/overlay/verif_export.go", "/repo/bolt.go": "/verif/.build/instr/bolt.go", "/repo/local.go": "/verif/.build/instr/local.go", "/repo/localsubscriber.go": "/verif/.build/instr/localsubscriber.go"}}' > .build/overlay-instr.json
+echo '{"Replace": {"/repo/verif_export_verif.go": "/verif/harness/overlay/verif_export.go", "/repo/bolt.go": "/verif/.build/instr/bolt.go", "/repo/local.go": "/verif/.build/instr/local.go", "/repo/localsubscriber.go": "/verif/.build/instr/localsubscriber.go", "'$bdir'/tx.go": "/verif/.build/bbolt_tx.go"}}' > .build/overlay-instr.json
 (cd harness && go build -tags verif -overlay ../.build/overlay-instr.json -o ../.build/vhs ./cmd/vh)
 # race-detector build (dynamic cross-check of the lock discipline)
 (cd harness && CGO_ENABLED=1 go build -race -tags verif -overlay ../.build/overlay.json -o ../.build/vhr ./cmd/vh)
